@@ -109,6 +109,17 @@ func (hl *headersList) getSorted() []header {
 	return sortedBlocks
 }
 
+// removeHeaders removes the given headers, unless a header with another hash has taken their number
+func (hl *headersList) removeHeaders(hs []header) {
+	hl.Lock()
+	for _, h := range hs {
+		if cur, ok := hl.headers[h.Num]; ok && cur.Hash == h.Hash {
+			delete(hl.headers, h.Num)
+		}
+	}
+	hl.Unlock()
+}
+
 // removeRange removes headers from "from" to "to"
 func (hl *headersList) removeRange(from, to uint64) {
 	hl.Lock()
